@@ -34,7 +34,9 @@ Proof. decide equality. apply val_eq_dec. apply Nat.eq_dec. Defined.
 (* input_dataframe[column].values *)
 Definition column (j : nat) (b : list row) : list val := map (fun r => nth j r PyNone) b.
 
-(* the parsers' rows: None = absent; and the frame pandas builds from one batch of them *)
+(* the parsers' rows: None = absent.  [frame_raw]: the frame pandas builds from one batch of them, which is what the
+   statistics functions see when called directly on pd.DataFrame(rows) (and what the pipeline fed them before fix
+   2ffc0d7).  [frame_batch] (below): the frame compute_batch_ranking hands them, pd.DataFrame(rows).fillna(''). *)
 Definition cell := option str.
 Definition rrow := list cell.
 Definition is_none (c : cell) : bool := match c with None => true | Some _ => false end.
@@ -44,8 +46,12 @@ Definition frame_cell (b : list rrow) (jc : nat * cell) : val :=
   | Some s => V s
   | None => if allnone (fst jc) b then PyNone else NaN
   end.
-Definition frame_batch (b : list rrow) : batch :=
+Definition frame_raw (b : list rrow) : batch :=
   map (fun r => map (frame_cell b) (combine (seq 0 (length r)) r)) b.
+(* compute_batch_ranking: input_dataframe.fillna('') — an absent field is carried as the empty string *)
+Definition fill_cell (c : cell) : val := match c with Some s => V s | None => V [] end.
+Definition fill (rows : list rrow) : list row := map (map fill_cell) rows.
+Definition frame_batch (b : list rrow) : batch := fill b.
 (* rows without None cells: every cell is its string *)
 Definition lift_cell (c : cell) : val := match c with Some s => V s | None => NaN end.
 Definition lift (rows : list rrow) : list row := map (map lift_cell) rows.
@@ -258,8 +264,9 @@ Fixpoint cut {A} (sizes : list nat) (rows : list A) : list (list A) :=
   | n :: r => firstn n rows :: cut r (skipn n rows)
   end.
 
-(* the frames of a history of parsed batches *)
-Definition frames (bs : list (list rrow)) : list batch := map frame_batch bs.
+(* the frames_raw of a history of parsed batches *)
+Definition frames_raw (bs : list (list rrow)) : list batch := map frame_raw bs.       (* direct calls *)
+Definition frames (bs : list (list rrow)) : list batch := map frame_batch bs.         (* through the pipeline *)
 
 Fixpoint lookup_hash (tab : list (str * N)) (v : str) : N :=
   match tab with
@@ -271,6 +278,7 @@ Definition hash_val (tab : list (str * N)) (v : val) : N := lookup_hash tab (str
 
 Record C13_case := mkCase {
   c_ncols : nat;
+  c_pipeline : bool;               (* batches go through compute_batch_ranking (fillna) / the functions are called directly *)
   c_rows : list rrow;              (* parsed rows; None = absent *)
   c_thr : Z;                       (* args.rare_value_count_upper_bound *)
   c_bound : Z;                     (* args.max_unique_hist_constraint *)
@@ -289,7 +297,7 @@ Definition val_enc (v : val) : Z * str := match v with V s => (0, s) | NaN => (1
 Definition C13_obs := (list col_obs * list (nat * (Z * str) * Z))%type.
 
 Definition C13_model (c : C13_case) (sizes : list nat) : C13_obs :=
-  let bs := frames (cut sizes (c_rows c)) in
+  let bs := (if c_pipeline c then frames else frames_raw) (cut sizes (c_rows c)) in
   let syms := split_on 44 (c_syms c) in
   (map (fun j =>
           let covs := coverages syms j bs in
@@ -299,13 +307,15 @@ Definition C13_model (c : C13_case) (sizes : list nat) : C13_obs :=
        (seq 0%nat (c_ncols c)),
    map (fun kc : key * Z => (fst (fst kc), val_enc (snd (fst kc)), snd kc)) (rare (c_thr c) (c_ncols c) bs)).
 
-(* the specification side, a function of the table alone (claimed for None-free tables/columns: there
-   [lift] is the frame content whatever the split): what any implementation history over any composition
+(* the specification side, a function of the table alone (through the pipeline: [fill], claimed for every
+   table; direct calls: claimed for None-free tables/columns, where [lift] is the frame content whatever the split): what any implementation history over any composition
    must report.  card: None = more than cap distinct hashes (no claim); hist: None = distinct >= bound
    (no claim). *)
+Definition table_view (c : C13_case) : list row := if c_pipeline c then fill (c_rows c) else lift (c_rows c).
+
 Definition C13_spec (c : C13_case) : list (option nat * nat * option (list Z)) :=
   map (fun j =>
-         let col := column j (lift (c_rows c)) in
+         let col := column j (table_view c) in
          (card_spec (hash_val (c_hash c)) (c_cap c) col,
           distinct_truthy col,
           if Z.of_nat (length (dedup val_eq_dec col)) <? c_bound c then Some (hist_spec (c_edges c) col) else None))
@@ -319,7 +329,7 @@ Definition zlist_eqb (a b : list Z) : bool :=
 
 Definition C13_check (c : C13_case) (o : list nat * list (list Z) * al key) : list bool * list bool * bool :=
   let '(cards, hists, rep) := o in
-  let rows := lift (c_rows c) in
+  let rows := table_view c in
   (map (fun jc : nat * nat => optnat_eqb (card_spec (hash_val (c_hash c)) (c_cap c) (column (fst jc) rows)) (snd jc))
        (combine (seq 0%nat (c_ncols c)) cards),
    map (fun jh : nat * list Z =>
